@@ -217,7 +217,7 @@ func init() {
 		ID:    "C12",
 		Level: "model_checking",
 		Rule: "explicit-state search over write histories on the real in-memory store (testfs): alphabet = WriteVar / WriteSignedUpdate x {db, PK, ordinary variable (quick); + KEK, dbx (thorough)} x values ordered by size {empty, 1-entry, 3-entry, 2-list database; raw 0/1/5/40/600/40000 bytes}, " +
-			"plus writes of db and of the ordinary variable through definitions carrying an extra attribute bit (APPEND_WRITE, NON_VOLATILE) read back through the stock definitions, from an empty and a pre-populated store (db as a dump has it, an ordinary variable stored with one attribute bit more than its definition); a state is the complete content of the store, reached by replay on a fresh instance, deduplicated exactly; the search runs to the depth bound or to the fixpoint. In every state every variable is read back (raw reader, typed accessor) and compared with the reference register model (value of the most recent write, descriptor removed for signed secure-boot writes; never-written => error)",
+			"plus writes of db and of the ordinary variable through definitions carrying an extra attribute bit (APPEND_WRITE, NON_VOLATILE) read back through the stock definitions, from an empty and a pre-populated store (db as a dump has it, an ordinary variable stored with one attribute bit more than its definition); a state is the complete content of the store, reached by replay on a fresh instance, deduplicated exactly; the search runs to the depth bound or to the fixpoint. Every history is also run with every variable read after every write (each intermediate state judged, identical final store content); date units: the same search two operations deep with the clock at 20 other instants. In every state every variable is read back (raw reader, typed accessor) and compared with the reference register model (value of the most recent write, descriptor removed for signed secure-boot writes; never-written => error)",
 		Assumptions: []string{"frozen clock (vtime) and memoised deterministic PKCS#1 v1.5 signatures make replays byte-identical", "register model: map variable -> last written value"},
 		Units: func(tier string) []string {
 			u := []string{"empty-store", "prepopulated-store"}
@@ -376,6 +376,41 @@ func c12Run(c *hx.Ctx, tier, unit string) {
 					c.Outcome("read-violation")
 					c.Violation("C12 "+v+" (after "+opClass(op)+")", map[string]any{"history": histNames(path), "detail": d})
 					continue
+				}
+				// the same history with every variable read (raw reader and typed accessor) after every
+				// write: reads leave nothing behind in the store, each intermediate state reads back right
+				// and the store ends up byte-identical
+				{
+					wo := c12New(prepop)
+					mo := map[int][]byte{}
+					for k, v := range initModel {
+						mo[k] = v
+					}
+					bad := ""
+					var bd map[string]any
+					for i, pi := range path {
+						if pn := hx.Try(func() { wo.apply(vars, ops[pi]) }); pn != nil {
+							bad = "a write ends in " + pn.String()
+							break
+						}
+						val := ops[pi].val.enc
+						if val == nil {
+							val = []byte{}
+						}
+						mo[ops[pi].vi] = val
+						if v, d := judge(wo, node{path[:i+1], mo}); v != "" {
+							bad, bd = v, d
+							break
+						}
+					}
+					if bad == "" && wo.key(vars) != w.key(vars) {
+						bad = "the store's content differs from the content after the same writes without reads in between"
+					}
+					if bad != "" {
+						c.Outcome("read-violation")
+						c.Violation("C12 "+bad+" (history with every variable read after every write)", map[string]any{"history": histNames(path), "detail": bd})
+						continue
+					}
 				}
 				k := w.key(vars)
 				if seen[k] {
